@@ -312,12 +312,15 @@ func evaluateNoUnionInstanceMethod(
 	}
 
 	if methodT.IsDestructive {
+		// the receiver variable gets its own value: returnT may be the entry of
+		// the method table, and a later assignment to the variable writes
+		// through whatever it points to
 		base.SetValueT(
 			m.ctx.GetFrame(),
 			m.ctx.GetClass(),
 			m.ctx.GetMethod(),
 			m.objectT.ToString(),
-			returnT,
+			returnT.DeepCopy(),
 			m.ctx.IsDefineStatic,
 		)
 	}
